@@ -75,6 +75,20 @@ theorem pow_int_array_entry (x : List ℝ) (r m : ℕ) (h : r ≤ m) (d : ℕ) (
   have hl := (powMask_jet (jetOf_curve x) r m).2
   exact hj.2 d (by rw [hl]; exact hd)
 
+/-- `x ** r` for a LARGE integer exponent (`r > 64`, also Python ints beyond 64 bits: square and multiply, `O(log r)` products):
+coefficient `d` is the `d`-th Taylor coefficient of `X(t)^r` — the same curve as the repeated product of the small exponents,
+for every base point (no division) -/
+theorem pow_large_int_exponent (x : List ℝ) (r : ℕ) (d : ℕ) (hd : d < x.length) :
+    co (powBinS r x) d = tc (fun t => curve x t ^ r) d := by
+  have hj := powbin_jet (jetOf_curve x) r
+  have hl : (powBinS r x).length = x.length :=
+    (powBinLoop_jet (r + 1) r x (constS 1 x.length) (curve x) (fun _ => 1) (by omega) (jetOf_curve x) (jetOf_const 1 _)
+      (by simp [constS])).2
+  exact hj.2 d (by rw [hl]; exact hd)
+
+/-- non-vacuity: `(1 + t)^{100}` by square and multiply: `1 + 100 t + 4950 t²` -/
+example : powBinS 100 ([1, 1, 0] : List ℚ) = [1, 100, 4950] := by decide +kernel
+
 /-- non-vacuity: a zero base point, exponent 2 inside an array whose largest exponent is 3: `(3t + t²)² = 9t² (+ …)` -/
 example : powMaskS 2 3 ([0, 3, 1] : List ℚ) = [0, 0, 9] := by decide +kernel
 
